@@ -128,6 +128,7 @@ type World struct {
 	lastProgress       time.Duration
 	tmpDir             string
 	closers            []func()
+	engineDirs         []string
 	clients            []*clientState
 	OnStep             func(step uint64)
 	progressMark       int
